@@ -15,12 +15,14 @@ import (
 	"time"
 
 	"go.uber.org/zap"
+	"go.uber.org/zap/zapcore"
 
 	"github.com/yandex/pandora/core"
 	"github.com/yandex/pandora/core/aggregator"
 	"github.com/yandex/pandora/core/aggregator/netsample"
 	"github.com/yandex/pandora/core/engine"
 	"github.com/yandex/pandora/core/schedule"
+	"github.com/yandex/pandora/core/warmup"
 	"github.com/yandex/pandora/lib/monitoring"
 )
 
@@ -41,6 +43,26 @@ import (
 //	           cancel, Engine.Wait(). Every Report completed before the panic — in every pool — must be in the output,
 //	           every aggregator must have returned when Wait returns
 
+//	early=<what>:<j>  (round 4) pool j fails BEFORE or WHILE its tasks are started, next to healthy pools:
+//	           warm    the pool's first NewGun call (the warm-up gun) fails — instancePool.Run returns before runAsync
+//	           warmup  the warm-up gun's WarmUp fails
+//	           sched   the shared RPS schedule cannot be built — runAsync fails, nothing was started
+//	           inst    the FIRST instance cannot be built (its NewGun fails): startInstances returns started=0 with an
+//	                   error, no instance goroutine exists; the pool's provider and aggregator were started and must end
+//	           bind    the first instance's gun refuses Bind (same path, after the gun was made)
+//	           Engine.Run returns the error (cancelling the other pools); the caller cancels and calls Engine.Wait like
+//	           cli.go: Wait must return, every aggregator that was started must have returned, what the healthy pools
+//	           reported before the failure must be in their output; the aggregator of a pool that never got to runAsync
+//	           must not have been run at all
+//	shared=<N> (round 4) the pool's instances share ONE rps schedule of N tokens (rps-per-instance: false): when it runs
+//	           out the schedule's on-finish callback cancels the instance START only — the aggregator goes on until the
+//	           instances that are still shooting have reported
+//	pools=3    (round 4)
+//	slowlog=<µs> (round 4) the engine gets a debug-level logger whose sink is slow for the await loop's "Instance run
+//	           awaited" entry: with more instances than the pool's result channel buffers (64) the results of the
+//	           instances that finish meanwhile pile up — the sends block until the await loop takes them; none may
+//	           be lost (the loop would wait for ever) and the cancel must still come after the last Report
+//
 // a run of the engine over these toy guns takes milliseconds (a second on a badly loaded machine)
 const engineHang = 25 * time.Second
 
@@ -72,23 +94,28 @@ type engPool struct {
 	failAt   int
 	cancel   context.CancelFunc
 
-	real     core.Aggregator
-	file     func() *trackFile
-	runErr   error
-	runDone  atomic.Bool
-	guns     atomic.Int64
-	shots    atomic.Int64
-	seq      *atomic.Int64 // shared by all pools
-	pre      *atomic.Int64 // seq at the cancel, -1 = no cancel
-	mu       sync.Mutex
-	seqOf    map[[2]int]int64
-	reported [][2]int
+	real      core.Aggregator
+	file      func() *trackFile
+	runErr    error
+	runDone   atomic.Bool
+	runCalled atomic.Bool
+	newGuns   atomic.Int64 // calls of the pool's NewGun (the first one is the warm-up gun)
+	early     string       // how this pool fails early ("" = it does not)
+	bindFail  bool
+	guns      atomic.Int64
+	shots     atomic.Int64
+	seq       *atomic.Int64 // shared by all pools
+	pre       *atomic.Int64 // seq at the cancel, -1 = no cancel
+	mu        sync.Mutex
+	seqOf     map[[2]int]int64
+	reported  [][2]int
 }
 
 // engAgg wraps the real aggregator only to keep Run's return value (the engine may or may not pass it on)
 type engAgg struct{ p *engPool }
 
 func (a engAgg) Run(ctx context.Context, deps core.AggregatorDeps) error {
+	a.p.runCalled.Store(true)
 	err := a.p.real.Run(ctx, deps)
 	a.p.runErr = err
 	a.p.runDone.Store(true)
@@ -97,14 +124,39 @@ func (a engAgg) Run(ctx context.Context, deps core.AggregatorDeps) error {
 func (a engAgg) Report(s core.Sample) { a.p.real.Report(s) }
 
 type engGun struct {
-	p    *engPool
-	id   int
-	k    int
-	aggr core.Aggregator
-	r    *rand.Rand
+	p       *engPool
+	id      int
+	k       int
+	aggr    core.Aggregator
+	r       *rand.Rand
+	bindErr bool
 }
 
-func (g *engGun) Bind(aggr core.Aggregator, _ core.GunDeps) error { g.aggr = aggr; return nil }
+func (g *engGun) Bind(aggr core.Aggregator, _ core.GunDeps) error {
+	if g.bindErr {
+		g.p.earlyFail()
+		return errEarly
+	}
+	g.aggr = aggr
+	return nil
+}
+
+var errEarly = errors.New("c06: early failure")
+
+// earlyFail: the failing step takes a moment (so that the healthy pools are in the middle of their run), then notes
+// how many Report calls were completed before it fails
+func (p *engPool) earlyFail() {
+	time.Sleep(time.Duration(500+p.seq.Load()%7*300) * time.Microsecond)
+	p.pre.Store(p.seq.Load())
+}
+
+// engWarmGun: a gun whose WarmUp fails
+type engWarmGun struct{ *engGun }
+
+func (g engWarmGun) WarmUp(*warmup.Options) (interface{}, error) {
+	g.p.earlyFail()
+	return nil, errEarly
+}
 
 func (g *engGun) Shoot(core.Ammo) {
 	p := g.p
@@ -269,6 +321,18 @@ func runEngine(kv map[string]string) string {
 		return "err=bad-input"
 	}
 	discMs := atoi(kv["disc"])
+	earlyWhat, earlyPool := "", -1
+	if e := kv["early"]; e != "" {
+		parts := strings.SplitN(e, ":", 2)
+		if len(parts) != 2 {
+			return "err=bad-input"
+		}
+		earlyWhat, earlyPool = parts[0], atoi(parts[1])
+		if earlyPool >= pools {
+			return "err=bad-input"
+		}
+	}
+	shared := atoi(kv["shared"])
 	ctx, cancel := context.WithCancel(context.Background())
 	defer cancel()
 	var seq, pre atomic.Int64
@@ -303,6 +367,26 @@ func runEngine(kv map[string]string) string {
 		}
 		ps = append(ps, p)
 		pp := p
+		if i == earlyPool {
+			p.early = earlyWhat
+		}
+		perInstance := true
+		newSchedule := func() (core.Schedule, error) {
+			if discMs > 0 {
+				sc := schedule.NewConst(200, time.Hour)
+				sc.Start(time.Now().Add(-time.Duration(discMs) * time.Millisecond))
+				return sc, nil
+			}
+			return schedule.NewUnlimited(time.Hour), nil
+		}
+		if shared > 0 {
+			perInstance = false
+			newSchedule = func() (core.Schedule, error) { return schedule.NewOnce(int64(shared)), nil }
+		}
+		if p.early == "sched" {
+			perInstance = false
+			newSchedule = func() (core.Schedule, error) { pp.earlyFail(); return nil, errEarly }
+		}
 		// instances started one by one (startrps > 0): the start result reaches the pool's await loop long
 		// after the first instances have finished
 		startup := schedule.NewOnce(int64(inst))
@@ -314,25 +398,38 @@ func runEngine(kv map[string]string) string {
 			Provider:   &engProvider{ch: make(chan core.Ammo), n: ammo},
 			Aggregator: engAgg{pp},
 			NewGun: func() (core.Gun, error) {
-				id := int(pp.guns.Add(1)) - 1
-				return &engGun{p: pp, id: id, r: rand.New(rand.NewSource(seed*131 + int64(pp.idx)*17 + int64(id)))}, nil
-			},
-			RPSPerInstance: true,
-			NewRPSSchedule: func() (core.Schedule, error) {
-				if discMs > 0 {
-					sc := schedule.NewConst(200, time.Hour)
-					sc.Start(time.Now().Add(-time.Duration(discMs) * time.Millisecond))
-					return sc, nil
+				call := pp.newGuns.Add(1)
+				if (pp.early == "warm" && call == 1) || (pp.early == "inst" && call == 2) {
+					pp.earlyFail()
+					return nil, errEarly
 				}
-				return schedule.NewUnlimited(time.Hour), nil
+				id := int(pp.guns.Add(1)) - 1
+				g := &engGun{p: pp, id: id, r: rand.New(rand.NewSource(seed*131 + int64(pp.idx)*17 + int64(id)))}
+				if pp.early == "warmup" && call == 1 {
+					return engWarmGun{g}, nil
+				}
+				g.bindErr = pp.early == "bind" && call == 2
+				return g, nil
 			},
+			RPSPerInstance:  perInstance,
+			NewRPSSchedule:  newSchedule,
 			StartupSchedule: startup,
 			DiscardOverflow: discMs > 0,
 		})
 	}
 	m := engine.Metrics{Request: &monitoring.Counter{}, Response: &monitoring.Counter{},
 		InstanceStart: &monitoring.Counter{}, InstanceFinish: &monitoring.Counter{}}
-	e := engine.New(zap.NewNop(), m, conf)
+	logger := zap.NewNop()
+	if us := atoi(kv["slowlog"]); us > 0 {
+		core := zapcore.NewCore(zapcore.NewJSONEncoder(zap.NewProductionEncoderConfig()), zapcore.AddSync(io.Discard), zap.DebugLevel)
+		logger = zap.New(core, zap.Hooks(func(e zapcore.Entry) error {
+			if e.Message == "Instance run awaited" {
+				time.Sleep(time.Duration(us) * time.Microsecond)
+			}
+			return nil
+		}))
+	}
+	e := engine.New(logger, m, conf)
 	resCh := make(chan error, 1)
 	go func() { resCh <- e.Run(ctx) }()
 	var runErr error
@@ -360,6 +457,8 @@ func runEngine(kv map[string]string) string {
 			runS = "dropped"
 		case failAt > 0 && strings.Contains(runErr.Error(), "the gun broke"):
 			runS = "failed" // the pool whose gun panicked failed, as it must
+		case earlyWhat != "" && strings.Contains(runErr.Error(), errEarly.Error()):
+			runS = "failed" // the pool that could not start failed, as it must
 		}
 		// what cli.go does with a failed run: gracefulShutdown(), then Wait
 		cancel()
@@ -376,8 +475,15 @@ func runEngine(kv map[string]string) string {
 	if preV < 0 {
 		preV = made
 	}
+	notRun := 0
 	if runErr != nil {
 		for _, p := range ps {
+			if (p.early == "warm" || p.early == "warmup" || p.early == "sched") && !p.runCalled.Load() {
+				// this pool never got past runAsync: no task of it was started, its aggregator's Run was never called
+				// (and nobody can have reported to it)
+				notRun++
+				continue
+			}
 			snaps = append(snaps, p.snapshot(preV))
 		}
 	}
@@ -414,6 +520,9 @@ func runEngine(kv map[string]string) string {
 	}
 	obs := fmt.Sprintf("run=%s reports=%d pre=%d lines=%d dropped=%d err=%s order=%d dup=%d bad=%d closed=%d miss=%d aggret=%d",
 		runS, made, preV, tot.lines-tot.disc, tot.dropped, errS, tot.order, tot.dup, tot.bad, tot.closed, tot.miss, b2i(allRet))
+	if earlyWhat != "" {
+		obs += fmt.Sprintf(" notrun=%d", notRun)
+	}
 	if discMs > 0 {
 		var shots int64
 		for _, p := range ps {
